@@ -22,7 +22,7 @@ FILES = {
     "libxcp/src/feedback.rs": ["C12", "C04", "C07"],
     "libxcp/src/config.rs": ["C02", "C10", "C18", "C15", "C17", "C05"],
     "libfs/src/linux.rs": ["C05", "C19", "C01", "C11", "C15", "C10", "C14", "C04", "C12"],
-    "libfs/src/common.rs": ["C05", "C19", "C01", "C10", "C14", "C11", "C04", "C02", "C12"],
+    "libfs/src/common.rs": ["C05", "C19", "C01", "C10", "C14", "C11", "C04", "C02", "C12", "C03", "C16"],
     "libfs/src/lib.rs": ["C05", "C01"],
     "src/main.rs": ["C16", "C02", "C04", "C03", "C07", "C12"],
     "src/options.rs": ["C16", "C02", "C15", "C09"],
